@@ -29,6 +29,7 @@ ASSUMPTIONS = [
     "tolerance 1e-9 x (cell diagonal + largest coordinate): shifts by many cells lose absolute precision",
     "whitening identity judged in free space (no cell), as the property states, against the norm of L-whitened pair differences; relative tolerance 1e-9 + 40 eps d cond(P)",
 ]
+RULE = RULE + " " + forms.RULE_SUFFIX
 
 
 def gen(rng, tier, index):
